@@ -489,3 +489,43 @@ where
     };
     newton_raphson_onesided(x0, f0, f1)
 }
+
+// ---------------------------------------------------------------------------
+// verification hooks (read-only; compiled only with --cfg clarabel_verif)
+// ---------------------------------------------------------------------------
+#[cfg(clarabel_verif)]
+impl<T: FloatT> PowerCone<T> {
+    pub fn verif_is_primal_feasible(&self, s: &[T]) -> bool {
+        NonsymmetricCone::is_primal_feasible(self, s)
+    }
+    pub fn verif_is_dual_feasible(&self, z: &[T]) -> bool {
+        NonsymmetricCone::is_dual_feasible(self, z)
+    }
+    pub fn verif_barrier_primal(&mut self, s: &[T]) -> T {
+        NonsymmetricCone::barrier_primal(self, s)
+    }
+    pub fn verif_barrier_dual(&mut self, z: &[T]) -> T {
+        NonsymmetricCone::barrier_dual(self, z)
+    }
+    pub fn verif_higher_correction(&mut self, η: &mut [T], ds: &[T], v: &[T]) {
+        NonsymmetricCone::higher_correction(self, η, ds, v)
+    }
+    pub fn verif_update_dual_grad_H(&mut self, z: &[T]) {
+        NonsymmetricCone::update_dual_grad_H(self, z)
+    }
+    pub fn verif_gradient_primal(&self, s: &[T]) -> [T; 3] {
+        Nonsymmetric3DCone::gradient_primal(self, s)
+    }
+    /// (H_dual, Hs, grad, z) as stored
+    pub fn verif_state(&self) -> ([T; 6], [T; 6], [T; 3], [T; 3]) {
+        (self.H_dual.data, self.Hs.data, self.grad, self.z)
+    }
+    pub fn verif_alpha(&self) -> T {
+        self.α
+    }
+}
+/// verification hook: the private Newton-Raphson root finder of the power cone
+#[cfg(clarabel_verif)]
+pub fn verif_newton_raphson_powcone<T: FloatT>(s3: T, phi: T, α: T) -> T {
+    _newton_raphson_powcone(s3, phi, α)
+}
